@@ -253,6 +253,9 @@ def check(run: Run) -> None:
         if len(a) != 3 or a[0] != "scheduling_reference_time(on_wall_clock)+delta" or a[1] != "tag" or a[2] != "on_wall_clock":
             run.finding("C18.b2", "schedule(delta):forward", f"schedule(delta) must forward (reference+delta, tag, on_wall_clock); forwards {a}",
                         loc=fa.loc(cs[0]))
+        fl_fwd = R.flow(run, fa)
+        R.k2_precede(run, "C18.b2", fl_fwd, R.call_is(name="schedule"), lambda n, fl_fwd=fl_fwd: n.id == fl_fwd.cfg.exit,
+                     "schedule(delta) forwards EVERY request (a zero delay requested during start is a wake-up in the start cycle; the absolute overload decides admission)")
         fa = _method(run, "scheduling_reference_time")
         roles = [Role("WC", "bool", r"on_wall_clock"), Role("SUP", "bool", r"supports_wall_clock_"),
                  Role("NOW", "t", r"now_"), Role("WALL", "t", r"wall_clock_\.now\(\)")]
@@ -391,6 +394,7 @@ def _V(x):
 
 
 VARIANTS = [
+    {"id": "b2-zero-delay-dropped", "expect": "C18.b2", "edits": [{"file": SCHED, "find": "            require_state(\"schedule\");\n            schedule(scheduling_reference_time(on_wall_clock) + delta, std::move(tag), on_wall_clock);", "replace": "            require_state(\"schedule\");\n            if (!on_wall_clock && delta <= TimeDelta{0}) { return; }\n            schedule(scheduling_reference_time(on_wall_clock) + delta, std::move(tag), on_wall_clock);"}]},
     {"id": "b-admit-started-lt", "expect": "C18.b", "edits": [{"file": SCHED, "find": "if (when <= reference_now)", "replace": "if (when < reference_now)"}]},
     {"id": "b-admit-notstarted-le", "expect": "C18.b", "edits": [{"file": SCHED, "find": "else if (when < reference_now)", "replace": "else if (when <= reference_now)"}]},
     {"id": "b-wallclock-drop", "expect": "C18.b", "edits": [{"file": SCHED, "find": "when = std::max(now_ + MIN_TD, reference_now);", "replace": "when = reference_now;"}]},
